@@ -446,6 +446,27 @@ def main(modname, argv):
     # ---- correspondence + oracle on the implementation
     rng = random.Random(seed * 1000003 + 17)
     descs = load_corpus(prop) + list(mod.cases(rng, tier))
+    # ---- escalation: the tree under check is not the pinned source (somebody edited partitura) -> the quick tier
+    # draws ESCALATE more rounds of cases from further sub-seeds and uses more workers.  Never changes a verdict by itself.
+    drifted = []
+    try:
+        import source_lock
+        drifted = source_lock.drift(os.environ.get("VERIF_REPO", "/repo"))
+    except Exception as e:  # the fingerprint is an optimisation hint only
+        drifted = ["<fingerprint error: %s>" % e]
+    escalated = 0
+    if drifted and tier == "quick" and os.environ.get("VERIF_ESCALATE", "1") != "0":
+        rounds = int(os.environ.get("VERIF_ESCALATE_ROUNDS", str(getattr(mod, "ESCALATE", 3))))
+        seen = set(json.dumps(d, sort_keys=True, default=str) for d in descs)
+        for k in range(1, rounds + 1):
+            rk = random.Random((seed + 7001 * k) * 1000003 + 17)
+            for d in mod.cases(rk, tier):
+                key = json.dumps(d, sort_keys=True, default=str)
+                if key not in seen:
+                    seen.add(key)
+                    descs.append(d)
+                    escalated += 1
+        jobs = args.jobs or min(16, max(jobs, (os.cpu_count() or 4)))
     results = evaluate_all(mod, descs, jobs)
     herr = [(d, r["harness_error"]) for d, r in zip(descs, results) if "harness_error" in r]
     infra = [h for h in herr if h[1].split(":")[0] in INFRA_EXCEPTIONS]
@@ -621,6 +642,7 @@ def main(modname, argv):
         "partial": list(getattr(mod, "PARTIAL", [])),
         "broken_obligations": broken,
         "search_cases": searched,
+        "source_drift": {"files_differing_from_pinned_source": drifted[:20], "escalated_extra_cases": escalated},
     }
     if hasattr(mod, "distribution"):
         try:
